@@ -22,7 +22,7 @@ func (vc *FuncVC) execBlock(b *ssa.BasicBlock) {
 			// handled on block entry
 		case *ssa.DebugRef:
 			if !ins.IsAddr && ins.Object() != nil {
-				if v, ok := vc.vals[ins.X]; ok && v.Kind == vScalar {
+				if v, ok := vc.vals[ins.X]; ok && (v.Kind == vScalar || v.Kind == vSlice) {
 					vc.bind(ins.Object().Name(), b, vc.toSVal(v, ins.X.Type()))
 				} else if c, ok := ins.X.(*ssa.Const); ok {
 					cv := vc.constVal(c)
